@@ -510,7 +510,9 @@ def months_inc(start_date, months, eomonth=False):
         result = date(y, m + months + 1, 1)
         return result if isinstance(result, str) else result - 1
     else:
-        return date(y, m + months, d)
+        # clip the day to the length of the target month
+        y2, m2, _ = normalize_year(y, m + months, 1)
+        return date(y, m + months, min(d, max_days_in_month(m2, y2)))
 
 
 @time_value_wrapper
